@@ -77,6 +77,7 @@
 #include "token.h"
 #include "uuid.h"
 #include "writer.h"
+#include "verif_hooks.h"
 
 
 void store_citation(scratch_pad * scratch, footnote * f);
@@ -141,6 +142,8 @@ static char * my_strdup(const char * source) {
 /// Temporary storage while exporting parse tree to output format
 scratch_pad * scratch_pad_new(mmd_engine * e, short format) {
 	scratch_pad * p = malloc(sizeof(scratch_pad));
+
+	MMD6_POINT(MMD6_PT_SCRATCH_NEW);
 
 	if (p) {
 		p->padded = 2;							// Prevent unnecessary leading space
@@ -1427,6 +1430,7 @@ bool definition_extract(mmd_engine * e, token ** remainder) {
 			break;
 
 		case PAIR_BRACKET_VARIABLE:
+			MMD6_EVENT(MMD6_EV_PROCESS_VARIABLE, 0, 0);
 			fprintf(stderr, "Process variable:\n");
 			token_describe(label, e->dstr->str);
 			break;
@@ -1536,6 +1540,7 @@ void process_definition_block(mmd_engine * e, token * block) {
 			break;
 
 		default:
+			MMD6_EVENT(MMD6_EV_PROCESS_DEFAULT, block->type, 0);
 			fprintf(stderr, "process %d\n", block->type);
 	}
 
